@@ -13,8 +13,10 @@ LEVEL_TEXT = ("TLC checks the goroutine-level model PacketScan (request source, 
               "requests, more failures than every channel buffer, writer holding frames while other frames are built) are recorded at "
               "the seams and every trace must be a behaviour of PacketScanObs (TLC trace validation).")
 NOTE = ("Trusted: TLC; the recording seams of the overlay harness (request generator, filler, limiter, writer, reader, error consumer); "
-        "interleavings inside a stage are enumerated in the model and only sampled in the code; sync.Pool is modelled as a finite free set.")
-TECHNIQUE = "TLA+ model checking (TLC) with refinement + trace validation of the real pipeline against the seam-level spec"
+        "the gate hooks of /repo (MANIFEST.hooks) and the director; interleavings are enumerated in the model; in the code the replayed "
+        "schedules are a random sample of the model's behaviours (small request counts) and the free runs a sample of the scheduler's; "
+        "sync.Pool is modelled as a finite free set. A step-level mismatch with no violated clause is reported as model drift (exit 2).")
+TECHNIQUE = "TLA+ model checking (TLC) with refinement + replay of TLC-simulated schedules through the real goroutines (gate hooks) + trace validation against the goroutine-level and seam-level specs"
 DESIGN_REF = "DESIGN.md section 5, C07"
 
 
@@ -56,7 +58,12 @@ def run(ctx):
     from checks import c16
     ta, _tb = c16.pkt_traces(ctx, 0, 0, 2 if quick else 6, "c07r", real_runs=2 if quick else 6)
     n2, _ = vf.validate_runs(ctx, "PacketScanObsTrace", ta, keyfn=keyfn, label="pipeline with a shared real filler", timeout=3000)
-    ctx.count(0, [("run", i) for i in range(nruns + n2)])
+    # TLC-generated schedules of the goroutine-level model stepped through the real goroutines (gate hooks, build tag verif)
+    from checks import gate_common
+    cfgs = [(3, 2, 150, 150), (4, 3, 60, 100), (2, 1, 40, 40), (5, 2, 0, 60)] if quick else \
+           [(3, 2, 1500, 1000), (4, 3, 600, 600), (2, 1, 200, 200), (5, 2, 300, 400), (4, 1, 200, 200), (6, 3, 100, 300)]
+    n3, _ = gate_common.gate_replay(ctx, cfgs, cancel_every=4 if quick else 1)
+    ctx.count(0, [("run", i) for i in range(nruns + n2 + n3)])
     for r0 in vf.split_runs(vf.read_ndjson(trace))[:2]:
         ctx.sample(r0[:60])
     ctx.assumptions += ["sync.Pool is a finite free set without GC in the model",
